@@ -276,6 +276,9 @@ def _corrupt(v):
             return None  # empty byte string / None: shape unknown, do not touch
         if all(isinstance(x, str) for x in v):
             return None  # a bare error tag such as ["err"]: one-directional contracts do not pin it
+        if isinstance(v[0], str) and len(v) > 1 and v[0] != "ok":
+            # tagged error with a payload (["neg", payload]): the class is what contracts pin, payloads are often open
+            return [v[0] + "x"] + list(v[1:])
         if isinstance(v[0], str) and len(v) > 1:
             # tagged result ["ok", value, ...]: corrupt the value, not the tag
             w = list(v)
